@@ -8,17 +8,19 @@ Oracle: python datetime arithmetic written from the property text (per-account m
 and check-outs, elapsed seconds, the calendar days a session touches, per-account sums)."""
 import os, re, time
 from datetime import datetime, timedelta, date
+from fractions import Fraction as F
 import lib
 
 META = dict(
     id='C20',
     level='proof',
     technique='Coq proof (time-clock state machine: session matching, exact elapsed seconds, telescoping day-break pieces, error cases, refinement to a per-account matching specification) + differential correspondence of the extracted model against ledger',
-    level_text='Theorems in coq/Properties/Properties_C20.v state, for all event sequences and all timestamps, that the model of time_log_t (clock_in, clock_out, clock_out_from_timelog, the --day-break loop, close) posts for each closed session exactly t_out - t_in seconds on the check-in day to the check-in account; that under --day-break the pieces are the non-empty intersections of the session with the calendar days it touches (contiguous, boundaries at midnights, consecutive dates, telescoping to t_out - t_in, no empty piece for a check-out at midnight); that an account total is the sum of its sessions with or without --day-break; and that a line fails exactly in the three stated cases. The model is tied to the code by running thousands of generated time-clock files (1-60 events, 1-4 accounts, midnights, month ends, leap days, interleaved sessions, every malformed kind; bare or inside apply account blocks - nested, around only some of the lines -, under --master-account, with included time-clock files, apply tag / apply year / year / alias directives) through freshly built ledger and the extracted model and comparing every register row, error line, error class and exit status.',
+    level_text='Theorems in coq/Properties/Properties_C20.v state, for all event sequences and all timestamps, that the model of time_log_t (clock_in, clock_out, clock_out_from_timelog, the --day-break loop, close) posts for each closed session exactly t_out - t_in seconds on the check-in day to the check-in account; that under --day-break the pieces are the non-empty intersections of the session with the calendar days it touches (contiguous, boundaries at midnights, consecutive dates, telescoping to t_out - t_in, no empty piece for a check-out at midnight); that an account total is the sum of its sessions with or without --day-break; that a line fails exactly in the three stated cases; and that the scaled quantity a report shows (s -> m -> h -> units declared with C directives), times the factors of the units walked, is the number of seconds exactly (the display then rounds it). The model is tied to the code by running thousands of generated time-clock files (1-60 events, 1-4 accounts, midnights, month ends, leap days, interleaved sessions, every malformed kind; bare or inside apply account blocks - nested, around only some of the lines -, under --master-account, with included time-clock files, apply tag / apply year / year / alias directives) through freshly built ledger and the extracted model and comparing every register row, error line, error class and exit status, and the reported (scaled) figures of reg and bal - unit reached, exact quantity, printed text - with the unit walk of the model and display rounding; the oracle converts every figure shown back to seconds with the factors the journal declares.',
     level_note='Trusted: Coq kernel; extraction + OCaml driver and the python harness for the correspondence; boost ptime/gregorian arithmetic is modelled as integer seconds with day = t div 86400 (validated against python datetime by the correspondence); the fixed-column reading of i/o lines (textual.cc:467-523) is glue: a line that ends after the timestamp is a check-in to the account named "" or a check-out with no account (NULL); the harness joins master account, enclosing apply account arguments and the written name into the full name the model receives, and a regenerated table (Gen/ClockAccount.v, theorem clock_lines_resolve_alike) checks that both directives resolve the name with top_account(); an included file is a journal of its own (own time_log_t) whose rows the harness splices in at the include line.',
     design_ref='DESIGN.md section 7 C20',
     assumptions=['timestamps are well-formed `YYYY/MM/DD HH:MM:SS` between 1990 and 2060',
                  'account names and descriptions are plain words (no double spaces, tabs, `;` or `|`)',
+                 'units above hours are declared as `C 1.00<unit> = <n><unit below>` (one larger unit per smaller one); commodity_t::time_colon_by_default is off',
                  '--now is given (a date: the close of still-open sessions happens at its midnight, or at 31 December of a year / apply year directive in force at the end of the file)',
                  'alias directives are not applied to time-clock lines (observed, F110); at most one unclosed `year` directive per file, at its top',
                  'a check-out naming an account that is not open while exactly one other account is open closes that account (F12): observed and modelled, not judged by the oracle'],
@@ -33,7 +35,22 @@ ANCHORS = [datetime(2020, 2, 28, 20, 0, 0), datetime(2020, 2, 29, 23, 59, 0), da
            datetime(2021, 1, 31, 12, 0, 0), datetime(2000, 2, 28, 23, 0, 0), datetime(2020, 3, 1, 0, 0, 0),
            datetime(2020, 12, 31, 23, 59, 59)]
 FMT = ('%(date)|%(account)|%(verif_rational(amount))|%(payee)|%(code)|%(cleared)|%(checkin)|%(checkout)'
-       '|%(beg_line)|%(virtual)|%(filename)\\n')
+       '|%(beg_line)|%(virtual)|%(filename)'
+       '|%(scrub(display_amount))|%(verif_rational(scrub(display_amount)))|%(scrub(display_total))|%(verif_rational(scrub(display_total)))\\n')
+BAL_FMT = ('A|%(account)|%(scrub(display_total))|%(verif_rational(scrub(display_total)))\\n'
+           '%/T|%(scrub(display_total))|%(verif_rational(scrub(display_total)))\\n%/S\\n')
+# units a journal may put above hours: (label, factor from the unit below, decimals it is declared with, directive)
+UNIT_SETS = [
+    [('d', F(24), 2, 'C 1.00d = 24h')],
+    [('d', F(8), 2, 'C 1.00d = 8h')],
+    [('d', F(8), 2, 'C 1.00d = 8h'), ('w', F(5), 3, 'C 1.000w = 5d')],
+    [('d', F(24), 2, 'C 1.00d = 24h'), ('w', F(7), 2, 'C 1.00w = 7d')],
+    [('d', F(15, 2), 1, 'C 1.0d = 7.5h')],
+    [('d', F(24), 2, 'C 1.00d = 24h'), ('w', F(7), 1, 'C 1.0w = 7d'), ('q', F(13), 2, 'C 1.00q = 13w')],
+    [('D', F(10), 0, 'C 1D = 10h')],
+    [('d', F(6), 3, 'C 1.000d = 6h'), ('w', F(4), 0, 'C 1w = 4d')],
+]
+BUILTIN_UNITS = [('m', F(60), 1), ('h', F(60), 2)]
 
 
 def secs(dt):
@@ -45,8 +62,10 @@ def stamp(t):
 
 
 # ---- generation ------------------------------------------------------------------------------
-def gap(rng, t):
+def gap(rng, t, long=False):
     """seconds to the next event: aimed at the day boundary and at the sizes the property names"""
+    if long and rng.random() < 0.5:
+        return DAY * rng.randrange(1, 9) + rng.randrange(0, DAY)
     k = rng.random()
     to_mid = (t // DAY + 1) * DAY - t
     if k < 0.18:
@@ -66,7 +85,7 @@ def gap(rng, t):
     return rng.choice([1, DAY - 1, DAY, DAY + 1, 2 * DAY])
 
 
-def gen_case(rng, malformed=None, small=False):
+def gen_case(rng, malformed=None, small=False, long=False):
     """-> dict(events=[...], now=seconds).  An event: kind i/o, t, cap, acct (None = the line names
     no account: a check-in then goes to the account named "", a check-out passes NULL), desc."""
     nacc = rng.choice([1, 1, 2, 2, 3, 4])
@@ -88,7 +107,7 @@ def gen_case(rng, malformed=None, small=False):
         events.append(dict(kind=kind, t=t, cap=rng.random() < 0.2, acct=acct, desc=desc))
 
     for k in range(n):
-        t += gap(rng, t)
+        t += gap(rng, t, long)
         names = [a for a, _ in opened]
         free = [a for a in accts if a not in names]
         bad = rng.random() < pmal
@@ -451,13 +470,13 @@ def run_impl(path, now, db, master=None):
         if not l:
             continue
         f = l.split('|')
-        if len(f) != 11:
+        if len(f) != 15:
             rows.append(dict(bad=l))
             continue
         m = re.fullmatch(r'A:73:(-?\d+)/(\d+):\d+:[01]', f[2])
         rows.append(dict(date=f[0], acct=f[1], secs=(int(m.group(1)) if m and m.group(2) == '1' else None), amount=f[2],
                          payee=f[3], code=f[4], cleared=f[5], cin=f[6], cout=f[7], line=f[8], virtual=f[9],
-                         file=os.path.basename(f[10])))
+                         file=os.path.basename(f[10]), da=f[11], dax=f[12], dt=f[13], dtx=f[14]))
     errs, close_err = [], None
     pending = None
     for l in err.decode('utf-8', 'replace').split('\n'):
@@ -471,6 +490,74 @@ def run_impl(path, now, db, master=None):
                 errs.append((pending[0], pending[1], classify(l[7:])))
             pending = None
     return dict(status=st, rows=rows, errs=errs, close=close_err)
+
+
+def run_bal(path, now, db, master=None):
+    """`bal --flat --empty`: -> (status, [(account, shown text, exact unreduced value)], total (text, exact) or None)"""
+    args = ['-f', path, 'bal', '--flat', '--empty', '--now', (EPOCH + timedelta(seconds=now)).strftime('%Y/%m/%d'), '--format', BAL_FMT]
+    if db:
+        args.append('--day-break')
+    if master:
+        args += ['--master-account', master]
+    for attempt in range(5):
+        try:
+            st, out, err = lib.run_ledger(args, timeout=10)
+        except OSError:
+            if attempt == 4:
+                raise
+            time.sleep(2)
+            continue
+        if isinstance(st, int) and st > 0 and b'Error' not in err and attempt < 4:
+            time.sleep(2)
+            continue
+        break
+    accts, total = [], None
+    for l in out.decode('utf-8', 'replace').split('\n'):
+        f = l.split('|')
+        if f[0] == 'A' and len(f) == 4:
+            accts.append((f[1], f[2], f[3]))
+        elif f[0] == 'T' and len(f) == 3:
+            total = (f[1], f[2])
+    return st, accts, total
+
+
+def exact_of(x):
+    """verif_rational text -> 'unithex:num/den'"""
+    m = re.fullmatch(r'A:([0-9a-f]*):(-?\d+)/(\d+):\d+:[01]', x)
+    return '%s:%s/%s' % (m.group(1), m.group(2), m.group(3)) if m else 'unreadable(%s)' % x
+
+
+def shown_text(u):
+    """model answer 'labelhex:num/den|scaled:prec' -> (the text ledger prints, 'labelhex:num/den')"""
+    ex, sc = u.split('|')
+    n, p = sc.split(':')
+    n, p = int(n), int(p)
+    if ex.split(':')[1].startswith('0/'):
+        return None, ex              # a zero amount prints as `0` or `0s` depending on the report: text not compared
+    digits = str(abs(n)).rjust(p + 1, '0')
+    txt = ('-' if n < 0 else '') + (digits[:-p] + '.' + digits[-p:] if p else digits)
+    return txt + bytes.fromhex(ex.split(':')[0]).decode(), ex
+
+
+def chain_sx(units):
+    return [[l.encode(), f.numerator, f.denominator, p] for l, f, p in BUILTIN_UNITS + [(u[0], u[1], u[2]) for u in units]]
+
+
+def day_number(t):
+    """'YYYY/MM/DD' -> days since 1970-01-01 (ValueError when it is not a date)"""
+    if len(t) != 10 or t[4] != '/' or t[7] != '/':
+        raise ValueError(t)
+    return date(int(t[0:4]), int(t[5:7]), int(t[8:10])).toordinal() - 719163
+
+
+def stamp_secs(t):
+    """'YYYY/MM/DD HH:MM:SS' -> seconds since 1970-01-01 00:00:00"""
+    if len(t) != 19 or t[10] != ' ' or t[13] != ':' or t[16] != ':':
+        raise ValueError(t)
+    h, mi, se = int(t[11:13]), int(t[14:16]), int(t[17:19])
+    if not (0 <= h < 24 and 0 <= mi < 60 and 0 <= se < 60):
+        raise ValueError(t)
+    return day_number(t[:10]) * DAY + h * 3600 + mi * 60 + se
 
 
 def hexs(s):
@@ -498,9 +585,9 @@ def impl_canon(r, insts):
             out.append('unreadable(%s)' % (w.get('bad') or w['amount']))
             continue
         try:
-            d = (datetime.strptime(w['date'], '%Y/%m/%d') - EPOCH).days
-            ci = secs(datetime.strptime(w['cin'], '%Y/%m/%d %H:%M:%S'))
-            co = secs(datetime.strptime(w['cout'], '%Y/%m/%d %H:%M:%S'))
+            d = day_number(w['date'])
+            ci = stamp_secs(w['cin'])
+            co = stamp_secs(w['cout'])
         except ValueError:
             out.append('unreadable(%s %s %s)' % (w['date'], w['cin'], w['cout']))
             continue
@@ -557,7 +644,7 @@ def read_files(files, main, master):
     return toks, has_year[0]
 
 
-def oracle(files, main, master, now_s, r, db):
+def oracle(files, main, master, now_s, r, db, bal=None):
     """-> (list of (key, desc, observed, required), list of notes).  Written from the statement:
     per full account name, a check-in is matched by the next check-out for that account in the same file
     (a check-out line that names no account belongs to the only open check-in); sessions, dates and
@@ -692,6 +779,60 @@ def oracle(files, main, master, now_s, r, db):
     for a in sorted(set(totals) | set(want)):
         if totals.get(a, 0) != want.get(a, 0):
             viol.append(('account-total', 'time reported for %s' % a, totals.get(a, 0), want.get(a, 0)))
+    # the REPORTED time: what reg and bal show by default is scaled to larger units (s -> m -> h, then the
+    # units the journal declares with `C 1.00d = 24h`); read back in its unit and converted to seconds with
+    # the declared factors it is the sum of the sessions, to within half a unit of the decimals shown
+    unit = {'s': F(1), 'm': F(60), 'h': F(3600)}
+    for _ in range(4):             # a unit may be declared before the one it is built on
+        for fname in files:
+            for line in files[fname].split('\n'):
+                m = re.fullmatch(r'C (\d+(?:\.\d+)?)([A-Za-z]+) = (\d+(?:\.\d+)?)([A-Za-z]+)', line)
+                if m and m.group(4) in unit:
+                    unit[m.group(2)] = F(m.group(3)) * unit[m.group(4)] / F(m.group(1))
+
+    SHOWN = re.compile(r'(-?)(\d+)(?:\.(\d+))?([A-Za-z]+)')
+
+    def off(text, secs_wanted):
+        if text == '0':
+            return None if secs_wanted == 0 else 'is nothing'
+        m = SHOWN.fullmatch(text)
+        if not m or m.group(4) not in unit:
+            return 'not a number and a known unit'
+        f = unit[m.group(4)]
+        frac = m.group(3) or ''
+        v = int(m.group(2) + frac) * (-1 if m.group(1) else 1)      # the figure shown, times 10^decimals
+        scale = 10 ** len(frac)
+        # |v/scale * f - wanted| <= f / (2 scale), in integers
+        if 2 * abs(v * f.numerator - secs_wanted * scale * f.denominator) <= f.numerator:
+            return None
+        shown = F(v, scale) * f
+        return 'is %s s, off by %s s (half a unit shown is %s s)' % (float(shown), float(abs(shown - secs_wanted)), float(f / (2 * scale)))
+    run_total = 0
+    for w in rows:
+        run_total += w['secs']
+        e = off(w['da'], w['secs'])
+        if e:
+            viol.append(('reported:reg-amount', 'a posting of %d s is shown as %s' % (w['secs'], w['da']), '%s %s' % (w['da'], e), '%d s' % w['secs']))
+            break
+        e = off(w['dt'], run_total)
+        if e:
+            viol.append(('reported:reg-total', 'the running total of %d s is shown as %s' % (run_total, w['dt']), '%s %s' % (w['dt'], e), '%d s' % run_total))
+            break
+    if bal is not None and bal[0] == 0:
+        for a, txt, _ in bal[1]:
+            fam = sum(v for b, v in want.items() if b == a or b.startswith(a + ':'))     # bal: an account and those below it
+            e = off(txt, fam)
+            if e:
+                viol.append(('reported:bal-account', 'the sessions of %s and below sum to %d s, bal shows %s' % (a, fam, txt), '%s %s' % (txt, e), '%d s' % fam))
+                break
+        if bal[2] is not None:
+            e = off(bal[2][0], sum(want.values()))
+            if e:
+                viol.append(('reported:bal-total', 'all sessions sum to %d s, bal shows %s' % (sum(want.values()), bal[2][0]), '%s %s' % (bal[2][0], e), '%d s' % sum(want.values())))
+        shown = {a for a, _, _ in bal[1]}
+        for a in want:
+            if want[a] and a not in shown:
+                viol.append(('reported:bal-missing', 'bal does not list %s' % a, str(sorted(shown)), a))
     known = {(fi, lin) for _, _, _, fi, lin in sessions} | {(fi, lin) for _, _, fi, lin in still}
     for key in by_line:
         if key not in known:
@@ -709,7 +850,8 @@ def judge(ctx, case, db):
     files, main = render(case)
     write_files(ctx, files)
     r = run_impl(ctx.path(main), case['now'], db, case.get('master'))
-    return oracle(files, main, case.get('master'), case['now'], r, db)[0], files
+    bal = run_bal(ctx.path(main), case['now'], db, case.get('master')) if r['status'] == 0 else None
+    return oracle(files, main, case.get('master'), case['now'], r, db, bal)[0], files
 
 
 def drop_lines(lines, lo, width):
@@ -762,7 +904,7 @@ def features(case, insts, model_line):
                 kinds.add('child-blocks' if any(x['k'] == 'apply-account' for x in l['child']) else 'child-plain')
                 scan(l['child'], depth + 1)
     scan(case['lines'], 0)
-    for k in sorted(kinds & {'apply-account', 'apply-tag', 'apply-year', 'year', 'alias', 'include'}):
+    for k in sorted(kinds & {'apply-account', 'apply-tag', 'apply-year', 'year', 'alias', 'include', 'conv'}):
         f.add('directive:' + k)
     if case.get('master'):
         f.add('directive:--master-account')
@@ -808,6 +950,14 @@ def dress(rng, case, plain=False):
     if fancy >= 2 and rng.random() < 0.2:
         yeardir = rng.choice([2019, 2031, 2056, 1999])
     case['lines'] = lay_out(rng, case['events'], fancy, children, yeardir)
+    units = case.get('units')
+    if units is None:
+        units = rng.choice(UNIT_SETS) if rng.random() < 0.3 else []
+    case['units'] = units
+    for j, u in enumerate(units):
+        # anywhere in the file will do; mostly at its top, in order (a unit must exist before the next is built on it)
+        at = j if rng.random() < 0.7 else max(j, min(len(case['lines']), j + rng.randrange(0, 4)))
+        case['lines'].insert(at, dict(k='conv', text=u[3]))
     case['master'] = rng.choice(MASTERS) if (not plain and rng.random() < 0.2) else None
     return case
 
@@ -840,7 +990,7 @@ def gen_blocks_directed(rng):
         lines = [L(E('i', base + 50, 'Work:B'), 'Work:B'), A('Proj'), dict(k='include', child=child), END, L(E('o', base + 500, 'Work:B'), 'Work:B')]
     evs = [l['e'] for l in lines if l['k'] == 'ev']
     now = (base // DAY + 3) * DAY
-    return dict(events=evs, now=now, lines=lines, master=rng.choice([None, None, 'Top']))
+    return dict(events=evs, now=now, lines=lines, master=rng.choice([None, None, 'Top']), units=[])
 
 
 def run(ctx, n_override=None):
@@ -849,9 +999,10 @@ def run(ctx, n_override=None):
     res.rule = ('time-clock files of 1-60 i/o/I/O events over 1-4 accounts (gaps of seconds to days, aimed at midnights, month ends, '
                 '29 February; interleaved sessions; check-outs with and without account; sessions left open; every malformed kind), '
                 'bare or wrapped in directives (apply account blocks, also nested and around only some of the lines, --master-account, '
-                'included files with clock lines, apply tag / apply year / year / alias), each run with and without --day-break; '
+                'included files with clock lines, apply tag / apply year / year / alias, C conversions putting units with non-uniform factors above hours, '
+                'sessions of several days), each run through reg with and without --day-break and through bal; '
                 'non-trivial = the file contains a check-out line; distinct by the text of all files, --now, --master-account and the day-break flag')
-    n = n_override or ctx.scale(800, 5000)
+    n = n_override or ctx.scale(700, 3000)
     cases = []
     for i in range(n):
         k = rng.random()
@@ -859,6 +1010,10 @@ def run(ctx, n_override=None):
             cases.append(('d', dress(rng, gen_directed(rng), plain=rng.random() < 0.6)))
         elif k < 0.16:
             cases.append(('b', gen_blocks_directed(rng)))
+        elif k < 0.30:
+            c = gen_case(rng, long=True, small=rng.random() < 0.5)     # sessions of days: the totals reach the units above hours
+            c['units'] = rng.choice(UNIT_SETS)
+            cases.append(('u', dress(rng, c, plain=rng.random() < 0.5)))
         elif k < 0.62:
             cases.append(('v', dress(rng, gen_case(rng))))
         else:
@@ -877,6 +1032,7 @@ def run(ctx, n_override=None):
     hangs = 0
     shrunk = set()
     mpos = 0
+    reported = []         # (case text, chain, [(what, seconds, text shown, exact shown)]) for the second model batch
     for i, (tag, case, files, main, insts) in enumerate(prepared):
         if hangs >= 3:
             res.notes.append('stopped after 3 runs that did not terminate within 10 s')
@@ -903,7 +1059,7 @@ def run(ctx, n_override=None):
             res.evaluations += 1
             res.traces += 1
             nev = sum(len(x['evs']) for x in insts)
-            res.count('kind:' + {'d': 'directed', 'b': 'directed-blocks', 'v': 'valid', 'm': 'malformed-stream'}[tag])
+            res.count('kind:' + {'d': 'directed', 'b': 'directed-blocks', 'u': 'long-sessions-with-units', 'v': 'valid', 'm': 'malformed-stream'}[tag])
             res.count('events:%s' % ('1-2' if nev < 3 else '3-10' if nev <= 10 else '11-30' if nev <= 30 else '31+'))
             for f in features(case, insts, rm):
                 res.count(f)
@@ -915,7 +1071,37 @@ def run(ctx, n_override=None):
             if ri != rm:
                 res.disagreements.append(dict(name='C20/register', case=dict(files=files, main=main, now=case['now'], master=case.get('master'), day_break=bool(db)),
                                               impl=ri[:600], model=rm[:600]))
-            viol, notes = oracle(files, main, case.get('master'), case['now'], r, db)
+            bal = None
+            if r['status'] == 0 and not r['errs'] and ri == rm:
+                bal = run_bal(ctx.path(main), case['now'], db, case.get('master')) if (db == i % 2 or case.get('units')) else None
+            if bal is not None:
+                items, run_total, per = [], 0, {}
+                for w in r['rows']:
+                    run_total += w['secs']
+                    per[w['acct']] = per.get(w['acct'], 0) + w['secs']
+                    items.append(('reg amount', w['secs'], w['da'], exact_of(w['dax'])))
+                    items.append(('reg running total', run_total, w['dt'], exact_of(w['dtx'])))
+                if bal[0] != 0 or sorted(a for a, _, _ in bal[1]) != sorted(per):
+                    res.disagreements.append(dict(name='C20/bal-accounts', case=dict(files=files, main=main, now=case['now'], master=case.get('master'), day_break=bool(db)),
+                                                  impl='status %s, accounts %s' % (bal[0], sorted(a for a, _, _ in bal[1])), model=str(sorted(per))))
+                else:
+                    for a, txt, ex in bal[1]:      # an account's total includes the accounts below it
+                        items.append(('bal ' + a, sum(v for b, v in per.items() if b == a or b.startswith(a + ':')), txt, exact_of(ex)))
+                    if bal[2] is not None:
+                        items.append(('bal total', run_total, bal[2][0], exact_of(bal[2][1])))
+                    elif len(per) > 1:
+                        items.append(('bal total', run_total, '(no total line)', '-'))
+                # the model answers for the bal figures, the last register row and one more row (the oracle reads them all)
+                nreg = 2 * len(r['rows'])
+                keep = set(range(nreg, len(items))) | {nreg - 2, nreg - 1}
+                if nreg > 2:
+                    j = 2 * rng.randrange(len(r['rows']) - 1)
+                    keep |= {j, j + 1}
+                items = [it for k_, it in enumerate(items) if k_ in keep and it[1] != 0]    # a zero shows as 0, 0s or integer 0: the oracle reads it
+                reported.append((dict(files=files, main=main, now=case['now'], master=case.get('master'), day_break=bool(db)), case.get('units') or [], items))
+                if case.get('units') and any(not re.fullmatch(r'[\d.]+[smh]', t) for _, _, t, _ in items):
+                    res.count('reported-in-a-declared-unit')
+            viol, notes = oracle(files, main, case.get('master'), case['now'], r, db, bal)
             for nt in notes:
                 noted[nt] = noted.get(nt, 0) + 1
             for key, desc, obs, req in viol:
@@ -931,6 +1117,28 @@ def run(ctx, n_override=None):
                     write_files(ctx, files)
                 res.violations.append(dict(key=key, desc=desc, case=dict(files=jfiles, main=main, now=case['now'], master=case.get('master'), day_break=bool(db)),
                                            observed=str(obs), required=str(req)))
+    # the reported (scaled) figures against the model's unit walk and display rounding
+    queries, index = [], {}
+    for _, units, items in reported:
+        ck = lib.sx(chain_sx(units))
+        for _, secs_, _, _ in items:
+            if (ck, secs_) not in index:
+                index[(ck, secs_)] = len(queries)
+                queries.append('(unreduce q%d %d 1 73 0 %s)' % (len(queries), secs_, ck))
+    answers = lib.run_model('C20', queries) if queries else []
+    bad = 0
+    for cs, units, items in reported:
+        ck = lib.sx(chain_sx(units))
+        for what, secs_, txt, ex in items:
+            res.count('reported-figures')
+            a = answers[index[(ck, secs_)]].split(' U ', 1)[1]
+            mtxt, mex = shown_text(a)
+            if mtxt is None:
+                mtxt = txt
+            if (txt, ex) != (mtxt, mex) and bad < 50:
+                bad += 1
+                res.disagreements.append(dict(name='C20/reported-time', case=cs, impl='%s of %d s: %s (%s)' % (what, secs_, txt, ex),
+                                              model='%s (%s)' % (mtxt, mex)))
     for nt, c in sorted(noted.items()):
         res.notes.append('%s [%d runs]' % (nt, c))
     return res
@@ -959,7 +1167,10 @@ def replay(ctx, obj):
         for w in r['rows']:
             print('replay: row %s' % w)
         print('replay: required %s, observed before %s' % (obj.get('required'), obj.get('observed')))
-        viol, _ = oracle(files, main, case.get('master'), case['now'], r, db)
+        bal = run_bal(ctx.path(main), case['now'], db, case.get('master')) if r['status'] == 0 else None
+        if bal:
+            print('replay: bal %s total %s' % (bal[1], bal[2]))
+        viol, _ = oracle(files, main, case.get('master'), case['now'], r, db, bal)
         for key, desc, obs, req in viol:
             if key == obj.get('key'):
                 res.violations.append(dict(key=key, desc=desc))
